@@ -144,7 +144,7 @@ func main() {
 	for i, n := 0, r.Pick(300, 5000); i < n; i++ {
 		runOverlappingRounds(r, r.Seed*9_000_003+int64(i))
 	}
-	r.FloorCount("overlapping_rounds_applied", int64(r.Pick(2000, 30000)))
+	r.FloorCount("overlapping_rounds_applied", int64(r.Pick(900, 15000)))
 	// what a recovering follower is sent: table streams taken from the leader's state machine while
 	// it applies writes back to back must be the leader's state at the index they declare (the
 	// follower records that index and resumes the log behind it)
